@@ -18,6 +18,7 @@ RULE = ("family 'pair': every ordered pair of the quantity classes (41x41) x {*,
         "classes; family 'rnd': random full signatures/values; non-trivial = the case made at least one "
         "cross-type product or quotient whose result is a named quantity or has a non-zero signature; distinct = "
         "canonical case hash")
+RULE += '; comparisons also between a value, its neighbouring floats and the same value re-expressed in other units'
 ASSUMPTIONS = ["operands are finite non-zero floats/ints so products and quotients are finite",
                "the signature of a named quantity is what Quantity.sisig() reports"]
 
@@ -243,6 +244,23 @@ def _run(case, ctx):
                             ctx.count("same_type_ops")
                             if got is not want:
                                 ctx.viol(f"same-type-{opn}:non-finite", {**info, "x": fx(float(x)), "y": fx(float(y)), "got": got, "want": want})
+                # neighbouring floats are different values: a value, the next floats above it and the same value written in
+                # another unit (its SI value may or may not round to the same float) compare exactly as their SI values do
+                nbrs = [A(math.nextafter(float(a.displayvalue), math.inf), ua), A(float(a.displayvalue) * (1 + 2 ** -51), ua)]
+                for u2 in list(_units_of(A))[:3]:
+                    try:
+                        nbrs.append(a.as_unit(u2))
+                        nbrs.append(A(float(nbrs[-1].displayvalue), u2))
+                    except Exception:
+                        pass
+                for y in nbrs:
+                    for x_, y_ in ((a, y), (y, a)):
+                        for opn, got, want in (("lt", x_ < y_, float(x_) < float(y_)), ("le", x_ <= y_, float(x_) <= float(y_)),
+                                               ("gt", x_ > y_, float(x_) > float(y_)), ("ge", x_ >= y_, float(x_) >= float(y_)),
+                                               ("eq", x_ == y_, float(x_) == float(y_)), ("ne", x_ != y_, float(x_) != float(y_))):
+                            ctx.count("same_type_ops")
+                            if got is not want:
+                                ctx.viol(f"same-type-{opn}:neighbouring-values", {**info, "x": fx(float(x_)), "y": fx(float(y_)), "got": got, "want": want})
                 # the SI form of the same quantity: addition/ordering across (quantity, SI) is refused too
                 _must_refuse(ctx, "q+SI", lambda: a + s, info)
                 _must_refuse(ctx, "q<SI", lambda: a < s, info)
